@@ -14,7 +14,7 @@ DEMO_CMD=$(python3 -c "import json;print(json.load(open('$OUT/meta.json'))['demo
 go build ./... && go test -vet=off -count=1 ./... > /tmp/seeds/$ID.tests.log 2>&1; T=$?
 # place demo files
 for f in $OUT/*_test.go; do [ -f "$f" ] && { case "$(grep -m1 '^package ' $f | awk '{print $2}')" in main) cp $f . ;; prom|prom_test) cp $f lib/prom/ ;; plot) cp $f lib/plot/ ;; lttb) cp $f lib/lttb/ ;; resolver) cp $f internal/resolver/ ;; *) cp $f lib/ ;; esac; }; done
-for f in $OUT/lib/*_test.go; do [ -f "$f" ] && cp $f lib/; done
+(cd $OUT && find . -mindepth 2 -name '*_test.go' | while read f; do mkdir -p "$WT/$(dirname $f)"; cp "$f" "$WT/$f"; done)
 [ -d $OUT/demo ] && cp -r $OUT/demo internal/
 bash -c "$DEMO_CMD" > /tmp/seeds/$ID.demo_with.log 2>&1; W=$?
 git apply -R $OUT/patch.diff
@@ -22,7 +22,7 @@ bash -c "$DEMO_CMD" > /tmp/seeds/$ID.demo_without.log 2>&1; WO=$?
 git checkout -q -- . ; git clean -fdq
 echo "existing_tests_with_patch_rc=$T demo_with_patch_rc=$W demo_without_patch_rc=$WO"
 cp $OUT/patch.diff $DST/; cp $OUT/*_test.go $DST/ 2>/dev/null; cp $OUT/README.txt $DST/ 2>/dev/null
-[ -d $OUT/lib ] && mkdir -p $DST/lib && cp $OUT/lib/*_test.go $DST/lib/ 2>/dev/null
+(cd $OUT && find . -mindepth 2 -name '*_test.go' | while read f; do mkdir -p "$DST/$(dirname $f)"; cp "$f" "$DST/$f"; done)
 python3 - <<PY
 import json
 m=json.load(open('$OUT/meta.json'))
